@@ -11,8 +11,8 @@ the root of the start tree (unresolvable prefix), `Entry.Augment` records `augme
 it, and `Find` creates an absent rpc input / output on its way.  `Built'` adds these as
 constructors that leave the provenance as it is (`rootErr`, `implicit`), and `congr` (a forest is
 only ever observed through `tree?`).  `built'_namespace` is C12's provenance theorem for `Built'`;
-the rest threads `Built'` through `augmentTree`, `augmentPass`, `augmentLoop`, the leftover pass
-and `FixChoice`.
+the rest threads `Built'` through `augmentTree`, `augmentPass`, `augmentLoop`, the retry rounds, the
+reporting sweep and `FixChoice`.
 -/
 set_option linter.unusedVariables false
 set_option linter.unusedSimpArgs false
